@@ -231,7 +231,8 @@ fn build(vc: &VarCfg, obj: &Option<FnRep>, cons: &(Vec<ConRep>, Vec<RemRep>)) ->
             vars.push(VarRep::new(10, KIND_CONTINUOUS, None));
             vars.push(VarRep::new(9, KIND_CONTINUOUS, Some((5.0, 50.0))));
             deps.push((10, FnRep::Lin { terms: vec![(9, 2.0)], c: 0.0 }));
-            deps.push((9, FnRep::Lin { terms: vec![(1, 1.0)], c: 8.0 }));
+            // x9 = x1 + 3 leaves the declared bound [5, 50] of x9 for most x1: a bound constrains supplied values only
+            deps.push((9, FnRep::Lin { terms: vec![(1, 1.0)], c: 3.0 }));
         }
         3 => {
             // quadratic dependency on x2 and x1
@@ -312,6 +313,12 @@ fn states(inst: &InstRep, vc: &VarCfg, edges: bool) -> Vec<(Vec<(u64, f64)>, boo
     out.push((vec![], true));
     // extra undefined id
     out.push((vec![(1, base1), (2, 0.0), (99, 4.0)], true));
+    // a (stale, in-bound) value supplied for a dependent variable: the dependent value is what is reported
+    // (only without a chain: when another dependent variable is computed from this one, the SDK's result
+    // depends on the iteration order of its dependency map - see DESIGN 10.4, observation after round 7)
+    if vc.dep == 1 || vc.dep == 3 {
+        out.push((vec![(1, base1), (2, 0.0), (9, 6.0)], true));
+    }
     if let Some((k, bb)) = vc.x7 {
         let vb = VarRep::new(7, k, bb).eff_bound();
         for (v7, dy) in x1_values(k, vb, true) {
